@@ -5,13 +5,13 @@ import random
 from fractions import Fraction as Fr
 
 from common import impl, impl_site
-from gen import gen_initial_states, nontrivial, signature
+from gen import gen_initial_states, has_log, nontrivial, signature
 from pipeline import (ImplFns, check_simulation, compare_value_arrays, explicit_case, frame_rows, init_impl,
                       materialise_case, model_layout, model_solve)
 from dsl import params_impl
 
 FORCES = [["mixed"], ["mixed", "cont2"], ["filter"], ["cont2", "flatc", "lower"], ["stoch"], ["f1"], ["constraint"], None, ["mixed", "stoch"], ["aux"], ["nofilter"],
-          ["f1", "constraint"], ["filter", "flatd"], ["flatc", "lower"], ["mixed", "flatd", "lower"], ["flatc", "flatd", "lower", "filter"]]
+          ["f1", "constraint"], ["log"], ["log", "mixed"], ["filter", "flatd"], ["flatc", "lower"], ["mixed", "flatd", "lower"], ["flatc", "flatd", "lower", "filter"]]
 AGENTS = [1, 6, 7, 11]
 
 
@@ -76,7 +76,7 @@ def run_panel(case, want_targets=None):
     info["V"] = V
     info["df"] = df
     info["rows"] = frame_rows(df, mj, n)
-    info["res"] = check_simulation(mj, P, V, info["rows"], init)
+    info["res"] = check_simulation(mj, P, V, info["rows"], init, tol=(1e-9 if has_log(mj) else None))
     return info
 
 
